@@ -59,7 +59,7 @@ func ReadArguments(reader io.Reader) (args []string, eof bool, err error) {
 				if ch == '\\' {
 					isEscaped = true
 				} else {
-					*current += string(ch)
+					*current += string(buf)
 					isEscaped = false
 				}
 			}
@@ -98,7 +98,7 @@ func ReadArguments(reader io.Reader) (args []string, eof bool, err error) {
 				if _, err = reader.Read(buf); err != nil {
 					return nil, err == io.EOF, goaterr.Errorf(err.Error())
 				}
-				value += string(buf[0])
+				value += string(buf)
 				if strings.HasSuffix(value, eof) {
 					value = value[:len(value)-len(eof)]
 					break
@@ -108,7 +108,7 @@ func ReadArguments(reader io.Reader) (args []string, eof bool, err error) {
 			args[len(args)-1] = value
 			continue
 		}
-		*current += string(ch)
+		*current += string(buf)
 		isEscaped = false
 		isSeparated = false
 	}
